@@ -12,6 +12,7 @@ import (
 func c17Complete(r *core.Run) {
 	allSetCoverage(r, "C17.V1")
 	c17ReloadAll(r)
+	c17StoreBeforeMark(r)
 	c17NoEmptyEntry(r)
 	// the reference counts that decide which chunks a delete may remove also decide whether a
 	// surviving file's record stays truthful: a chunk released twice is removed while the other
